@@ -284,8 +284,11 @@ class MdSim(object):
                 return
             if fault in ("garbled", "truncated"):
                 # the parse may legitimately have produced something else or nothing: contents unspecified
-                if must_fail:
-                    self.viol(i, "load-succeeded." + must_fail[0], "type=%s reasons=%s" % (typ, must_fail))
+                # (the corruption may have hit the validUntil attribute: expiry is not demanded here)
+                hard = [m for m in must_fail if m in ("signed-document-corrupted", "signature-under-wrong-cert",
+                                                      "verification-tool-fault")]
+                if hard:
+                    self.viol(i, "load-succeeded." + hard[0], "type=%s reasons=%s" % (typ, must_fail))
                     return
                 self.model[self._mkey(key)] = None       # unknown contents: exclude from exactness checks
                 self.count("load.ok.corrupted-unsigned")
